@@ -19,6 +19,11 @@ FLAVORS = {
         "cxx": "-O2 -DNDEBUG %s" % COMMON,
         "ld": "",
     },
+    # development only (bin/covreport): line / function coverage of the library under the generated workloads
+    "cov": {
+        "cxx": "-O0 --coverage -DVERIF_COV %s" % COMMON,
+        "ld": "--coverage",
+    },
 }
 
 
